@@ -13,7 +13,7 @@ cd $WT
 if [ -n "$DEMO" ]; then
   cp $DEMO $WT/$DEMODIR/ && (go test -vet=off -count=1 -run "$(grep -ho 'func Test[A-Za-z0-9_]*' $DEMO | sed 's/func //' | paste -sd'|')" ./$DEMODIR 2>&1 | tail -3 | sed 's/^/  demo-without-change: /')
 fi
-git apply $DIFF || { echo "PATCH DOES NOT APPLY"; exit 2; }
+git apply $DIFF 2>/dev/null || git apply -3 $DIFF || { echo "PATCH DOES NOT APPLY"; exit 2; }
 go build ./... 2>&1 | tail -3 || exit 2
 [ -n "$DEMO" ] && (go test -vet=off -count=1 -run "$(grep -ho 'func Test[A-Za-z0-9_]*' $DEMO | sed 's/func //' | paste -sd'|')" ./$DEMODIR 2>&1 | tail -3 | sed 's/^/  demo-with-change: /')
 [ -n "$DEMO" ] && rm -f $WT/$DEMODIR/$(basename $DEMO)
